@@ -90,6 +90,10 @@ def rights : List (Elem (Bin α β)) → List (Elem β)
   | .ts (.right b) t :: es => .ts b t :: rights es
   | _ :: es => rights es
 
+/-- the payloads of the two sides, in arrival order -/
+def leftVals (es : List (Elem (Bin α β))) : List α := (lefts es).filterMap Elem.value
+def rightVals (es : List (Elem (Bin α β))) : List β := (rights es).filterMap Elem.value
+
 /-- the data elements (the pairs) of an output -/
 def dataOf {γ : Type} (out : List (Elem γ)) : List (Elem γ) := out.filter Elem.isData
 
